@@ -1030,6 +1030,16 @@ func infoHonourPoints(c *km.Ctx, s *km.Sem, fn *ssa.Function, call *ssa.Call) []
 // returnsResultOf: fn is a thin wrapper around call: every return of fn that is not a zero value hands back the
 // call's first result as fn's first result.
 func returnsResultOf(fn *ssa.Function, call *ssa.Call) bool {
+	// thin: straight-line code (a function that tests the info before handing it on is a user, not a wrapper)
+	nb := 0
+	for _, b := range fn.Blocks {
+		if fn.Recover == nil || b != fn.Recover {
+			nb++
+		}
+	}
+	if nb != 1 {
+		return false
+	}
 	n := 0
 	for _, b := range fn.Blocks {
 		ret, ok := b.Instrs[len(b.Instrs)-1].(*ssa.Return)
